@@ -15,7 +15,15 @@ import (
 
 func init() { props["C13"] = &Prop{Run: runC13, Replay: replayC13} }
 
-func lineOf(k int) string { return "l" + strconv.Itoa(k) }
+// lines 9001.. are words whose 32-bit FNV hashes collide pairwise (a diff must compare lines, not digests)
+var collide = []string{"costarring", "liquid", "declinate", "macallums", "altarage", "zinke"}
+
+func lineOf(k int) string {
+	if k > 9000 && k <= 9000+len(collide) {
+		return collide[k-9001]
+	}
+	return "l" + strconv.Itoa(k)
+}
 func linesOf(ks []int) []string {
 	out := make([]string, len(ks))
 	for i, k := range ks {
@@ -26,9 +34,16 @@ func linesOf(ks []int) []string {
 func unline(ss []string) []int {
 	out := make([]int, len(ss))
 	for i, s := range ss {
-		k, err := strconv.Atoi(s[1:])
-		if err != nil {
-			k = -1
+		k := -1
+		for j, w := range collide {
+			if s == w {
+				k = 9001 + j
+			}
+		}
+		if k < 0 && len(s) > 1 {
+			if v, err := strconv.Atoi(s[1:]); err == nil {
+				k = v
+			}
 		}
 		out[i] = k
 	}
@@ -52,7 +67,7 @@ func chunksJ(cs []*mdiff.Chunk) []any {
 }
 
 func c13rec(lhs, rhs []int, n int) Ev {
-	ev := Ev{"op": "new", "lhs": ints(lhs), "rhs": ints(rhs), "n": n, "cnew": []any{}, "cctx": []any{}, "cuni": []any{},
+	ev := Ev{"op": "new", "lhs": ints(lhs), "rhs": ints(rhs), "n": n, "big": b2i(len(lhs)*len(rhs) > 40000), "cnew": []any{}, "cctx": []any{}, "cuni": []any{},
 		"enew": []any{}, "ectx": []any{}, "euni": []any{}}
 	guard(ev, func() {
 		d := mdiff.New(linesOf(lhs), linesOf(rhs))
@@ -136,6 +151,48 @@ func runC13(c *Ctx) {
 		for n := 0; n <= in.MaxN; n++ {
 			c.NewHist("tlc-input").Emit(c13rec(in.Lhs, in.Rhs, n))
 		}
+	}
+	// lines whose digests collide; large inputs (a thousand lines and more) with a few
+	// changes, duplicated / removed adjacent equal lines, growing runs of one line
+	for a := 9001; a <= 9006; a++ {
+		for b := 9001; b <= 9006; b++ {
+			c.NewHist("collide").Emit(c13rec([]int{1, a, 2}, []int{1, b, 2}, 1))
+			c.NewHist("collide").Emit(c13rec([]int{a}, []int{b}, 0))
+		}
+	}
+	for i := 0; i < c.Pick(8, 60); i++ {
+		rng := c.Rng("c13-big", i)
+		n := 1100 + rng.Intn(500)
+		l := make([]int, n)
+		for j := range l {
+			l[j] = 10 + j
+			if i%3 == 1 {
+				l[j] = 1 + j%2 // highly repetitive
+			}
+			if i%3 == 2 {
+				l[j] = 5 // one line repeated
+			}
+		}
+		r := append([]int(nil), l...)
+		switch rng.Intn(4) {
+		case 0: // duplicate one line in place
+			p := rng.Intn(n)
+			r = append(r[:p+1:p+1], r[p:]...)
+		case 1: // remove one line
+			p := rng.Intn(n)
+			r = append(r[:p:p], r[p+1:]...)
+		case 2: // change one line and append one
+			r[rng.Intn(n)] = 7
+			r = append(r, 8)
+		default: // a blank-like line next to an equal one
+			p := rng.Intn(n - 1)
+			r[p], r[p+1] = 3, 3
+			r = append(r[:p+1:p+1], append([]int{3}, r[p+1:]...)...)
+		}
+		if rng.Intn(2) == 0 {
+			l, r = r, l
+		}
+		c.NewHist("big-input").Emit(c13rec(l, r, []int{0, 3}[rng.Intn(2)]))
 	}
 	cnt := c.Pick(3000, 100000)
 	for i := 0; i < cnt; i++ {
